@@ -296,6 +296,8 @@ struct State {
     ended: Option<End>,
     pct_change_points: Vec<u64>,
     rr_left: u32,
+    /// the deciding task asked to yield: other candidates come first and "pick 0" is another task
+    yielding: bool,
 }
 
 pub struct Sim {
@@ -380,6 +382,7 @@ pub fn run<F: FnOnce() + Send + 'static>(cfg: SimCfg, mut choices: Choices, reco
         ended: None,
         pct_change_points: Vec::new(),
         rr_left: 0,
+        yielding: false,
         cfg,
     };
     if let Mode::Pct { depth, est_steps } = st.cfg.mode.clone() {
@@ -604,6 +607,19 @@ pub fn yield_now() {
     sched_point_at(0x11);
 }
 
+/// `thread::yield_now` / a future that wakes itself and returns Pending: let somebody else
+/// run if anybody can (keeps spin-waits from starving the task they wait for under the
+/// "never preempt" default schedule).
+pub fn yield_fair() {
+    let Some((sim, _me)) = ctx() else { return };
+    if in_atomic() {
+        return;
+    }
+    sim.lock().yielding = true;
+    sched_point_at(0x12);
+    sim.lock().yielding = false;
+}
+
 /// A scheduling point from a lock hook: consecutive acquisitions from the same site by the
 /// same task are throttled.
 pub fn sched_point_throttled(site: u64) {
@@ -780,14 +796,18 @@ fn pick_next(sim: &Arc<Sim>, st: &mut MutexGuard<'_, State>, me: TaskId, _site: 
         }
         let n = st.tasks.len();
         let mut cands: Vec<TaskId> = Vec::with_capacity(n);
-        // order: current first, then the others by id
-        if is_candidate(st, me) {
+        // order: current first, then the others by id (a yielding task goes last)
+        let yielding = st.yielding;
+        if !yielding && is_candidate(st, me) {
             cands.push(me);
         }
         for i in 0..n {
             if i != me && is_candidate(st, i) {
                 cands.push(i);
             }
+        }
+        if yielding && is_candidate(st, me) {
+            cands.push(me);
         }
         if !cands.is_empty() {
             let unstalled: Vec<TaskId> = cands
@@ -861,7 +881,7 @@ fn choose_among(st: &mut State, me: TaskId, cands: &[TaskId]) -> TaskId {
             cands[k]
         }
         Mode::RoundRobin { quantum } => {
-            if me_first && st.rr_left > 0 {
+            if me_first && st.rr_left > 0 && !st.yielding {
                 st.rr_left -= 1;
                 // still a recorded decision so that replay vectors can deviate here
                 let k = st.choices.choose(cands.len(), Some(1000));
@@ -881,7 +901,7 @@ fn choose_among(st: &mut State, me: TaskId, cands: &[TaskId]) -> TaskId {
         }
         Mode::Pct { .. } => {
             let step = st.ctr.steps;
-            if st.pct_change_points.contains(&step) {
+            if st.pct_change_points.contains(&step) || st.yielding {
                 // demote the current task below everything else
                 let low = st.tasks.iter().map(|t| t.prio).min().unwrap_or(1);
                 st.tasks[me].prio = low.saturating_sub(1);
@@ -1050,8 +1070,13 @@ pub fn block_on<F: std::future::Future>(fut: F) -> F::Output {
         match fut.as_mut().poll(&mut cx) {
             std::task::Poll::Ready(v) => return v,
             std::task::Poll::Pending => {
-                let f = flag.clone();
-                block("await", &move || f.0.load(Ordering::SeqCst));
+                if flag.0.load(Ordering::SeqCst) {
+                    // self-woken (a spinning future): behave like a yield
+                    yield_fair();
+                } else {
+                    let f = flag.clone();
+                    block("await", &move || f.0.load(Ordering::SeqCst));
+                }
                 flag.0.store(false, Ordering::SeqCst);
             }
         }
